@@ -57,9 +57,26 @@ def handlers(prog: Program, direction: str) -> list[Row]:
     return rows
 
 
-def fallback_routine(prog: Program, direction: str) -> ClassInfo | None:
+def dispatcher(prog: Program, direction: str):
+    """The function that walks the direction's dispatch table for one graph node.  Found by role, not by name: the
+    module-level function of the api module that reads `_HANDLERS` and takes the node and the context."""
+    import ast as _ast
+
     api, _, _ = DIRS[direction]
-    f = prog.function(f"{api}._get_unmarshaller")
+    mod = prog.module(api)
+    cands = []
+    for name, fi in mod.functions.items():
+        if fi.node.decorator_list:
+            continue
+        if any(isinstance(n, _ast.Name) and n.id == "_HANDLERS" for n in _ast.walk(fi.node)) and len(fi.params) >= 2:
+            cands.append(fi)
+    if len(cands) != 1:
+        raise AnalysisError(f"anchor: the dispatch function over {api}._HANDLERS not found ({[c.name for c in cands]})")
+    return cands[0]
+
+
+def fallback_routine(prog: Program, direction: str) -> ClassInfo | None:
+    f = dispatcher(prog, direction)
     last = None
     for p in P.paths_of(prog, f):
         if p.exit[0] == "return" and p.exit[1][0] == "call" and p.exit[1][1][0] == "ref":
